@@ -1186,9 +1186,16 @@ def describe(case) -> Dict[str, Any]:
             "focus": case.get("focus"), "violations": case.get("violations"), "idx": case.get("idx", 0), "script": SCRIPT}
 
 
+BENIGN_KINDS = {"missing-nullable-column"}       # injected, but not a violation: never part of a finding key
+
+
+def real_violations(case) -> List[str]:
+    return [k for k in (case.get("violations") or []) if k not in BENIGN_KINDS]
+
+
 def base_key(case) -> str:
     f = case.get("focus")
-    v = case.get("violations") or []
+    v = real_violations(case)
     parts = []
     if f and focus_cell(case) is not None:
         parts.append(f"{f['type']}:{f['label']}")
@@ -1304,7 +1311,7 @@ def campaign(ctx, keys: List[str], n_random: int, kcheck_per_pattern: Optional[i
 
 def _pure(case) -> bool:
     f = case.get("focus") if focus_cell(case) is not None else None
-    v = case.get("violations") or []
+    v = real_violations(case)
     return (1 if f else 0) + len(v) <= 1
 
 
@@ -1318,7 +1325,7 @@ def attributed_key(case, rel: str, pure_keys) -> str:
     f = case.get("focus") if focus_cell(case) is not None else None
     if f and f"{f['type']}:{f['label']}:{rel}" in pure_keys:
         return f"{f['type']}:{f['label']}:{rel}"
-    for k in sorted(case.get("violations") or []):
+    for k in sorted(real_violations(case)):
         if f"structure:{k}:{rel}" in pure_keys:
             return f"structure:{k}:{rel}"
     return f"{base_key(case)}:{rel}"
